@@ -18,7 +18,7 @@ HARNESSES = {
     "parsed_context_line_and_slice": {"crate": "okane-core", "inject": ["core_parse_adaptor", "core_tracked_ctor"], "bound": "ASCII text <= 6 bytes; every span", "timeout": 900},
     "get_column_complete": {"crate": "okane-core", "inject": ["core_display"], "bound": "none (loop-free, full usize domain)", "complete": True, "timeout": 600},
     "to_double_entry_signs": {"crate": "okane", "inject": ["cli_single_entry"], "bound": "one record: amounts from the sign classes {+,-} x two magnitudes (scale 2); optional transferred amount / balance / dest account; no charges, no rates", "timeout": 2400},
-    "display_roundtrip_bounded": {"crate": "okane-core", "inject": ["core_pretty_decimal"], "bound": "|mantissa| < 10^7, scale <= 3, Plain and Comma3Dot", "timeout": 1800},
+    "display_roundtrip_bounded": {"crate": "okane-core", "inject": ["core_pretty_decimal"], "bound": "i16 mantissa, scale <= 2, Plain and Comma3Dot", "timeout": 1800},
     "compute_line_number_bounded": {"crate": "okane-core", "inject": ["core_parse_error"], "bound": "text <= 4 characters over {LF, CR, a, ;, あ(3 bytes)}; every byte position", "timeout": 600},
     "parse_error_new_bounded": {"crate": "okane-core", "inject": ["core_parse_error"], "bound": "text <= 4 characters over {LF, CR, a, ;, あ(3 bytes)}; every entry start and failure offset on a char boundary", "timeout": 900},
 }
